@@ -241,6 +241,8 @@ def r18_5(ctx):
     for n in walk_local(f.node):
         if isinstance(n, ast.Assign) and len(n.targets) == 1 and isinstance(n.targets[0], ast.Name):
             defs.setdefault(n.targets[0].id, []).append(n.value)
+        elif isinstance(n, ast.AnnAssign) and isinstance(n.target, ast.Name) and n.value is not None:
+            defs.setdefault(n.target.id, []).append(n.value)
     mincall = None
     for r in rets:
         v = r.value
@@ -329,6 +331,45 @@ def r18_5(ctx):
                               f"distance mixes component {qi} of the query with component {ei} of the palette entry: `{norm(n)}`")
         ctx.floor(pairs, 3, "component differences in the distance closure")
         return
+    def _entry_keyfn_check(dname, x, idxname):
+        keyfn = next((n for n in walk_local(f.node) if isinstance(n, ast.FunctionDef) and n.name == dname), None)
+        if keyfn is None:
+            return False
+        other_d = [o for o in other if o != f"return {idxname}"]
+        ctx.check(not other_d, f.fq, short(x), f"{f.module.relpath}:{x.lineno}", "match returns the position of the first minimum of the distances of all palette entries, in order",
+                  f"Palette.match returns something else besides the argmin: {other_d}")
+        q_names = None
+        for n in walk_local(f.node):
+            if isinstance(n, ast.Assign) and isinstance(n.targets[0], ast.Tuple) and norm(n.value) == color_p:
+                q_names = [e.id for e in n.targets[0].elts]
+        ep = keyfn.args.args[0].arg
+        e_names = None
+        for n in ast.walk(keyfn):
+            if isinstance(n, ast.Assign) and isinstance(n.targets[0], ast.Tuple) and norm(n.value) == ep:
+                e_names = [e.id for e in n.targets[0].elts]
+        if q_names is None or e_names is None or len(q_names) != 3 or len(e_names) != 3:
+            raise AnalysisError("Palette.match: cannot find the component unpacks of the query colour and the palette entry")
+        pairs = 0
+        for n in ast.walk(keyfn):
+            if isinstance(n, ast.BinOp) and isinstance(n.op, (ast.Sub, ast.Add)) and isinstance(n.left, ast.Name) and isinstance(n.right, ast.Name):
+                l, r_ = n.left.id, n.right.id
+                if (l in q_names and r_ in e_names) or (l in e_names and r_ in q_names):
+                    qi = q_names.index(l) if l in q_names else q_names.index(r_)
+                    ei = e_names.index(r_) if r_ in e_names else e_names.index(l)
+                    pairs += 1
+                    ctx.check(qi == ei, f.fq, norm(n), f"{f.module.relpath}:{n.lineno}", f"component {qi} of the query paired with component {ei} of the entry",
+                              f"distance mixes component {qi} of the query with component {ei} of the palette entry: `{norm(n)}`")
+        ctx.floor(pairs, 3, "component differences in the distance closure")
+        return True
+
+    # shape B2:  L = [D(entry) for entry in self._colors];  return L.index(min(L))   (D takes the entry itself)
+    if mincall is None and shape_b is not None:
+        lc_ = shape_b[1]
+        g_ = lc_.generators[0]
+        if norm(g_.iter) == "self._colors" and isinstance(lc_.elt, ast.Call) and isinstance(lc_.elt.func, ast.Name) and len(lc_.elt.args) == 1 and norm(lc_.elt.args[0]) == norm(g_.target) and not g_.ifs:
+            if any(isinstance(n, ast.FunctionDef) and n.name == lc_.elt.func.id for n in walk_local(f.node)):
+                if _entry_keyfn_check(lc_.elt.func.id, shape_b[0], None):
+                    return
     # shape D:  index, _d = min(enumerate(<D(entry) for every entry of self._colors, in order>), key=<second item>)
     # (first minimum by distance; enumerate numbers the entries from 0 - the element min(range, key=..) picks)
     if mincall is None and shape_b is None:
@@ -350,35 +391,9 @@ def r18_5(ctx):
             idxname = norm(x.targets[0].elts[0])
             if dname is None or not any(isinstance(r.value, ast.Name) and r.value.id == idxname for r in rets):
                 continue
-            keyfn = next((n for n in walk_local(f.node) if isinstance(n, ast.FunctionDef) and n.name == dname), None)
-            if keyfn is None:
-                continue
-            other_d = [o for o in other if o != f"return {idxname}"]
-            ctx.check(not other_d, f.fq, short(x), f"{f.module.relpath}:{x.lineno}", "match returns the position of the first minimum of the distances of all palette entries, in order",
-                      f"Palette.match returns something else besides the argmin: {other_d}")
-            q_names = None
-            for n in walk_local(f.node):
-                if isinstance(n, ast.Assign) and isinstance(n.targets[0], ast.Tuple) and norm(n.value) == color_p:
-                    q_names = [e.id for e in n.targets[0].elts]
-            ep = keyfn.args.args[0].arg
-            e_names = None
-            for n in ast.walk(keyfn):
-                if isinstance(n, ast.Assign) and isinstance(n.targets[0], ast.Tuple) and norm(n.value) == ep:
-                    e_names = [e.id for e in n.targets[0].elts]
-            if q_names is None or e_names is None or len(q_names) != 3 or len(e_names) != 3:
-                raise AnalysisError("Palette.match: cannot find the component unpacks of the query colour and the palette entry")
-            pairs = 0
-            for n in ast.walk(keyfn):
-                if isinstance(n, ast.BinOp) and isinstance(n.op, (ast.Sub, ast.Add)) and isinstance(n.left, ast.Name) and isinstance(n.right, ast.Name):
-                    l, r_ = n.left.id, n.right.id
-                    if (l in q_names and r_ in e_names) or (l in e_names and r_ in q_names):
-                        qi = q_names.index(l) if l in q_names else q_names.index(r_)
-                        ei = e_names.index(r_) if r_ in e_names else e_names.index(l)
-                        pairs += 1
-                        ctx.check(qi == ei, f.fq, norm(n), f"{f.module.relpath}:{n.lineno}", f"component {qi} of the query paired with component {ei} of the entry",
-                                  f"distance mixes component {qi} of the query with component {ei} of the palette entry: `{norm(n)}`")
-            ctx.floor(pairs, 3, "component differences in the distance closure")
-            return
+            if _entry_keyfn_check(dname, x, idxname):
+                return
+            continue
     # an explicit search loop (running minimum kept in locals that are re-assigned inside a for loop) is another algorithm: not read here
     loop_assigned = {t.id for lp_ in walk_local(f.node) if isinstance(lp_, (ast.For, ast.While)) for x_ in ast.walk(lp_) if isinstance(x_, ast.Assign) for t in x_.targets if isinstance(t, ast.Name)}
     for r in rets:
